@@ -204,6 +204,8 @@ def build(spec):
         A = qalg.herm(build(spec["of"]))
     elif g == "real":
         return np.ascontiguousarray(_rng(spec["seed"]).standard_normal((spec["m"], spec["n"])))
+    elif g == "realint":
+        return np.ascontiguousarray((_rng(spec["seed"]).standard_normal((spec["m"], spec["n"])) * 3).astype(np.int64))
     elif g == "complex":
         rng = _rng(spec["seed"])
         return np.ascontiguousarray(rng.standard_normal((spec["m"], spec["n"]))
@@ -242,7 +244,7 @@ def shape_of(spec):
     if not isinstance(spec, dict):
         return None
     g = spec.get("gen")
-    if g in ("gauss", "int", "psvd", "zeros", "real", "complex", "entry", "realq", "imagq", "maskq"):
+    if g in ("gauss", "int", "psvd", "zeros", "real", "realint", "complex", "entry", "realq", "imagq", "maskq"):
         return (spec["m"], spec["n"])
     if g in ("herm", "herm_vec", "unitary", "cI", "I_lowrank", "tri", "hess", "tridiag_herm"):
         return (spec["n"], spec["n"])
